@@ -873,7 +873,8 @@ impl Model {
                 self.ops[op].st = St::AwaitAck;
                 let s = self.ops[op].sub.unwrap();
                 self.subs[s].sender_alive = true;
-                self.next_sub_guess += 1;
+                // (only ever a guess inside the length window; kept inside the legal range)
+                self.next_sub_guess = if self.next_sub_guess >= 268_435_455 { 1 } else { self.next_sub_guess + 1 };
                 self.hit("subscribe-written");
             }
             OpSpec::Unsubscribe(_) => {
